@@ -11,12 +11,20 @@
 (* It is also the behaviour generator for the replay on the real class (PduRingGen).          *)
 EXTENDS PduRing, TLC
 
-CONSTANT MaxPdu          \* largest PDU memory size used by the environment (<= 255 + MinSz)
+CONSTANT Alphabet        \* "full": every size / "real": the sizes that occur in practice (for large rings)
+
+\* memory sizes of the PDUs the environment commits (MinSz < len; <= 254 = documented maximum 251 + layout overhead:
+\* beyond 255 push_front narrows to uint8_t) and the sizes it asks alloc_front for
+Lens  == IF Alphabet = "full" THEN MinSz + 1 .. Size
+         ELSE { x \in { MinSz + 1, MinSz + 2, MinSz + 7, MinSz + 27, MinSz + 60, MinSz + 100, MinSz + 200, MinSz + 249, MinSz + 251 } :
+                  x <= Size /\ x <= 254 }
+Sizes == IF Alphabet = "full" THEN MinSz + 1 .. Size + 1
+         ELSE Lens \cup { x \in { Size - 1, Size, Size \div 2, Size \div 2 + 1 } : x > MinSz }
 
 VARIABLES front, end,    \* front_ - buffer, end_ - buffer
           bad            \* "" or a description of an access outside the storage / of a garbage header
 
-ivars == <<live, mem, front, end, bad>>
+ivars == <<Size, MinSz, live, mem, front, end, bad>>
 
 Trunc8(n) == n % 256                                   \* std::uint8_t pdu_length( const P& )
 
@@ -33,13 +41,14 @@ AllocAt(size) ==
               ELSE -1
          ELSE -1
 
-IInit == Init /\ front = 0 /\ end = 0 /\ bad = ""
+IInit == (\E c \in Configs : Init(c[1], c[2])) /\ front = 0 /\ end = 0 /\ bad = ""
 
 \* reset( buffer )
 IReset ==
     /\ front' = 0 /\ end' = 0 /\ bad' = ""
     /\ live' = <<>>
-    /\ mem' = Apply(mem, Mark(0))
+    /\ mem' = Apply([a \in Cells |-> 0], Mark(0))
+    /\ UNCHANGED cfg
 
 PushW(off) == IF front # off /\ front + 1 < Size THEN Mark(front) ELSE {}
 
@@ -57,16 +66,17 @@ IPush(id, size, len) ==
        /\ end'   = IF front = end THEN off ELSE end
        /\ live'  = Append(live, [id |-> id, off |-> off, len |-> len])
        /\ bad'   = bad
+       /\ UNCHANGED cfg
 
 \* pop_end( buffer )   @pre not empty
 IPop ==
     /\ front # end
     /\ IF end + 1 >= Size
-       THEN bad' = "pop_end reads a header outside the storage" /\ UNCHANGED <<front, end, live, mem>>
+       THEN bad' = "pop_end reads a header outside the storage" /\ UNCHANGED <<cfg, front, end, live, mem>>
        ELSE LET e1 == end + LenAt(end) IN
             /\ end' = IF e1 # front /\ (e1 + 1 >= Size \/ mem[e1 + 1] = 0) THEN 0 ELSE e1
             /\ live' = IF live = <<>> THEN live ELSE Tail(live)
-            /\ UNCHANGED <<front, mem, bad>>
+            /\ UNCHANGED <<cfg, front, mem, bad>>
 
 \* next_end()
 IPeekNonEmpty == front # end
@@ -75,21 +85,18 @@ IPeekLen      == LenAt(end)
 \* more_than_one()
 IMore         == end # front /\ end + LenAt(end) # front
 
-INext(sizes, lens) ==
-    \/ \E size \in sizes, len \in lens : IPush(FreshId, size, len)
+INext ==
+    \/ \E size \in Sizes, len \in Lens : IPush(FreshId, size, len)
     \/ IPop
     \/ IReset
 
 (* ---- refinement: every implementation step is a property-level step --------------------- *)
-Sizes == MinSz + 1 .. Size + 1
-Lens  == MinSz + 1 .. MaxPdu
-
-ISpec == IInit /\ [][INext(Sizes, Lens) /\ Len(live') <= MaxLive]_ivars
+ISpec == IInit /\ [][INext /\ Len(live') <= MaxLive]_ivars
 
 RefinesPush  == [][\A size \in Sizes, len \in Lens :
                       IPush(FreshId, size, len) => Push(FreshId, AllocAt(size), size, len, PushW(AllocAt(size)))]_ivars
 RefinesPop   == [][IPop /\ bad' = "" => Pop({})]_ivars
-RefinesReset == [][IReset => Reset(Mark(0))]_ivars
+RefinesReset == [][IReset => Reset(Size, MinSz, Mark(0))]_ivars
 
 NoBadAccess  == bad = ""
 PtrOK        == front \in 0 .. Size /\ end \in 0 .. Size
